@@ -630,10 +630,10 @@ def measure_tower(R, p):
     return F2, (v3[0], v3[1])
 
 
-def check_curve(ob, R, X, nm, v, group, hist=None):
+def check_curve(ob, R, X, nm, v, group):
     """group: 'base' | 'endo' | 'map' | 'pairing' | 'cof' (units are distributed over the shards)"""
     ctx, rng, L = ob.ctx, ob.ctx.rng, R.L
-    ob.ident = ident_of("ep", nm, hist)
+    ob.ident = "ep:" + nm
     r0 = R.call("ep_param_set", v)
     if r0.caught or L.ep_param_get() != v:
         ob("installs", lambda: (False, "ep_param_set failed on re-installation"))
@@ -1280,9 +1280,9 @@ def check_fb(ob, R, X, nm, v, hist=None, ref=None):
             ob("sqrt-of-x", lambda: (K.sqr(srz) == 2, {"srz": hx(srz)}))
 
 
-def check_eb(ob, R, X, nm, v, group, hist=None):
+def check_eb(ob, R, X, nm, v, group):
     ctx, rng, L = ob.ctx, ob.ctx.rng, R.L
-    ob.ident = ident_of("eb", nm, hist)
+    ob.ident = "eb:" + nm
     r0 = R.call("eb_param_set", v)
     if r0.caught or L.eb_param_get() != v:
         ob("installs", lambda: (False, "eb_param_set failed on re-installation"))
@@ -2057,19 +2057,18 @@ def check_curve_after(ob, R, X, nm, v, hist, ref):
     ob("order-annihilates-generator", lambda: E.mul(n, G) is None)
     ob("hasse", lambda: (h >= 1 and abs(p + 1 - h * n) <= 2 * math.isqrt(p) + 1, {"p+1-hr": hx(p + 1 - h * n)}))
     ob("curve-arithmetic", lambda: curve_battery(R, E, G, n, rng))
-    if P["endom"]:
-        if ctx.quick:
-            # the variable-base multiplication above runs on beta and the GLV basis; here only beta's defining equation
-            beta = R.fp_get(ptr_fn(R, "ep_curve_get_beta")())[0]
-            ob("beta-cube-root-of-unity", lambda: (pow(beta, 3, p) == 1 and beta != 1, {"beta": hx(beta)}))
-        else:
-            check_curve(ob, R, X, nm, v, "endo", hist=hist)
+    if P["endom"] and ctx.quick:
+        # the variable-base multiplication above runs on beta and the GLV basis; here only beta's defining equation
+        beta = R.fp_get(ptr_fn(R, "ep_curve_get_beta")())[0]
+        ob("beta-cube-root-of-unity", lambda: (pow(beta, 3, p) == 1 and beta != 1, {"beta": hx(beta)}))
     if not ctx.quick:
-        # thorough tier: every obligation of the identifier again (the expensive twist / cofactor-map groups only after
-        # the histories that replace the modulus or the curve behind the identifier)
+        # thorough tier: the obligations of part 'ep' again on what this selection installed (the expensive twist and
+        # cofactor-map groups only after the histories that replace the modulus or the curve behind the identifier).
+        # They are comparisons of this (identifier, history) case but keep the keys of part 'ep' (identifier|obligation):
+        # an obligation that the parameter table of the identifier fails on a plain selection is that same finding here.
         heavy = hist in ("dense-prime", "family-prime", "foreign-plain-curve", "own-prime-and-curve", "failed-endom-curve")
-        for group in ("base",) + (("pairing", "cof") if heavy else ()):
-            check_curve(ob, R, X, nm, v, group, hist=hist)
+        for group in ("base", "endo") + (("pairing", "cof") if heavy else ()):
+            check_curve(ob, R, X, nm, v, group)
 
 
 def check_eb_after(ob, R, X, nm, v, hist, ref):
@@ -2117,8 +2116,8 @@ def check_eb_after(ob, R, X, nm, v, hist, ref):
             return z == 1 and (x, y) == E.mul(k, G), {"k": hx(k), "got": [hx(x), hx(y), hx(z)]}
         ob("curve-arithmetic", gen_mul)
     if not ctx.quick:
-        for group in (0, 1):
-            check_eb(ob, R, X, nm, v, group, hist=hist)
+        for group in (0, 1):          # keys of part 'binary' (see check_curve_after)
+            check_eb(ob, R, X, nm, v, group)
 
 
 def run_hist(ctx, R, X, ob, kinds, unit=0, fps=None):
